@@ -847,4 +847,231 @@ theorem hl_poolRun (ops : List PoolOp) (p : Pool) (L : List LogItem) (hall : All
     rw [← List.append_assoc]
     exact ih _ _ (hl_poolStep p op L hall)
 
+/-! ### a receiver of own votes only: no vote creates a certificate (own stake below the quorum threshold) -/
+
+/-- all stored votes are the node's own -/
+def OwnVotes (e : Epoch) (st : SlotState) : Prop :=
+  (∀ x ∈ st.vNotar, x.1 = e.own) ∧ (∀ x ∈ st.vNf, x.1 = e.own) ∧ (∀ x ∈ st.vSkip, x = e.own) ∧
+  (∀ x ∈ st.vSf, x = e.own) ∧ (∀ x ∈ st.vFin, x = e.own)
+
+def RV (e : Epoch) (st : SlotState) : Prop := InvV e st ∧ OwnVotes e st
+
+theorem OwnVotes.of_same {e : Epoch} {a b : SlotState} (h : SameVotes a b) (o : OwnVotes e a) : OwnVotes e b := by
+  unfold OwnVotes at *
+  rw [← h.notar, ← h.nf, ← h.skip, ← h.sf, ← h.fin]; exact o
+
+theorem InvV.fresh (e : Epoch) (s : Nat) : InvV e { slot := s } := by
+  constructor <;> simp [lookupD, stakeOf, SlotState.notarVoters, SlotState.nfVoters, SlotState.skipVoters,
+    SlotState.sfVoters, SlotState.finVoters, filter_false_sum]
+
+theorem RV.fresh (e : Epoch) (s : Nat) : RV e { slot := s } :=
+  ⟨InvV.fresh e s, by unfold OwnVotes; simp⟩
+
+theorem RV.of_coreEq {e : Epoch} {a b : SlotState} (h : CoreEq a b) (i : RV e a) : RV e b :=
+  ⟨i.1.of_coreEq h, i.2.of_same (SameVotes.of_coreEq h)⟩
+
+theorem RV.addCert {e : Epoch} {st : SlotState} (i : RV e st) (c : Cert) : RV e (st.addCert c) :=
+  ⟨InvV_addCert e st c i.1, i.2.of_same (SameVotes.addCert st c)⟩
+
+theorem OwnVotes.stored {e : Epoch} {st : SlotState} (o : OwnVotes e st) (v : Vote) (hv : v.signer = e.own) :
+    OwnVotes e (st.stored e v) := by
+  obtain ⟨o1, o2, o3, o4, o5⟩ := o
+  unfold SlotState.stored OwnVotes
+  cases v.kind <;> dsimp only
+  · exact ⟨fun x hx => by rcases List.mem_append.mp hx with h | h; exact o1 x h; simp at h; rw [h]; exact hv, o2, o3, o4, o5⟩
+  · exact ⟨o1, fun x hx => by rcases List.mem_append.mp hx with h | h; exact o2 x h; simp at h; rw [h]; exact hv, o3, o4, o5⟩
+  · exact ⟨o1, o2, fun x hx => by rcases List.mem_append.mp hx with h | h; exact o3 x h; simp at h; rw [h]; exact hv, o4, o5⟩
+  · exact ⟨o1, o2, o3, fun x hx => by rcases List.mem_append.mp hx with h | h; exact o4 x h; simp at h; rw [h]; exact hv, o5⟩
+  · exact ⟨o1, o2, o3, o4, fun x hx => by rcases List.mem_append.mp hx with h | h; exact o5 x h; simp at h; rw [h]; exact hv⟩
+
+theorem RV.vote {e : Epoch} {st : SlotState} (i : RV e st) (v : Vote) (hv : v.signer = e.own) (ha : Adm st v) :
+    RV e (st.addVote e v).1 :=
+  RV.of_coreEq (addVote_core e st v).symm (⟨stored_InvV e st v i.1 ha, i.2.stored v hv⟩ : RV e (st.stored e v))
+
+/-- the stake of a duplicate-free list of validators that are all the node itself -/
+theorem stakeOf_own (e : Epoch) (l : List Nat) (h1 : ∀ x ∈ l, x = e.own) (h2 : l.Nodup) :
+    stakeOf e l ≤ e.stake e.own ∧ (e.own ∉ l → stakeOf e l = 0) := by
+  cases l with
+  | nil => exact ⟨Nat.zero_le _, fun _ => rfl⟩
+  | cons x xs =>
+    have hx : x = e.own := h1 x List.mem_cons_self
+    have hxs : xs = [] := by
+      cases xs with
+      | nil => rfl
+      | cons y ys =>
+        have hy : y = e.own := h1 y (List.mem_cons_of_mem _ List.mem_cons_self)
+        have := (List.nodup_cons.mp h2).1
+        rw [hx, hy] at this
+        exact absurd List.mem_cons_self this
+    subst hxs; subst hx
+    exact ⟨by simp [stakeOf], fun h => absurd List.mem_cons_self h⟩
+
+theorem isMet_mono {num den x y total : Nat} (hxy : x ≤ y) (h : isMet num den x total = true) : isMet num den y total = true := by
+  unfold isMet at *
+  simp only [decide_eq_true_eq] at *
+  exact Nat.le_trans h (Nat.mul_le_mul_right _ hxy)
+
+theorem not_quorum_of_le {e : Epoch} {x : Nat} (hown : e.isQuorum (e.stake e.own) = false) (hx : x ≤ e.stake e.own) :
+    e.isQuorum x = false ∧ e.isStrong x = false := by
+  have h1 : e.isQuorum x = false := by
+    cases h : e.isQuorum x
+    · rfl
+    · unfold Epoch.isQuorum at h hown
+      rw [isMet_mono hx h] at hown; cases hown
+  refine ⟨h1, ?_⟩
+  cases h : e.isStrong x
+  · rfl
+  · exfalso
+    simp [Epoch.isStrong, Epoch.isQuorum, isMet, Gen.STRONG_QUORUM_THRESHOLD_NUM, Gen.STRONG_QUORUM_THRESHOLD_DEN,
+      Gen.QUORUM_THRESHOLD_NUM, Gen.QUORUM_THRESHOLD_DEN] at h h1
+    omega
+
+theorem mem_range_filter {n : Nat} {f : Nat → Bool} {x : Nat} (h : x ∈ (List.range n).filter f) : f x = true :=
+  (List.mem_filter.mp h).2
+
+/-- in a slot state that stores only own votes every counted stake is at most the own stake -/
+theorem own_counters {e : Epoch} {st : SlotState} (i : RV e st) :
+    (∀ h, lookupD st.sNf h + lookupD st.sNotar h ≤ e.stake e.own) ∧ st.sSkip + st.sSf ≤ e.stake e.own ∧
+    st.sFin ≤ e.stake e.own := by
+  obtain ⟨iv, o1, o2, o3, o4, o5⟩ := i
+  have nd : ∀ f : Nat → Bool, ((List.range e.n).filter f).Nodup := fun f => (filter_range_ok e.n f).2
+  refine ⟨fun h => ?_, ?_, ?_⟩
+  · rw [iv.cNf, iv.cNotar]
+    have a1 : ∀ x ∈ st.notarVoters e.n h, x = e.own := by
+      intro x hx
+      have := mem_range_filter hx
+      simp only [beq_iff_eq] at this
+      obtain ⟨pr, hp, hpe⟩ := List.mem_map.mp (mem_keys_of_lookup_some st.vNotar x h this)
+      rw [← hpe]; exact o1 pr hp
+    have a2 : ∀ x ∈ st.nfVoters e.n h, x = e.own := by
+      intro x hx
+      have := mem_range_filter hx
+      simp only [List.contains_iff_mem] at this
+      exact o2 (x, h) this
+    obtain ⟨b1, c1⟩ := stakeOf_own e _ a1 (nd _)
+    obtain ⟨b2, c2⟩ := stakeOf_own e _ a2 (nd _)
+    by_cases m1 : e.own ∈ st.notarVoters e.n h
+    · by_cases m2 : e.own ∈ st.nfVoters e.n h
+      · exfalso
+        have g1 := mem_range_filter m1
+        have g2 := mem_range_filter m2
+        simp only [beq_iff_eq] at g1
+        simp only [List.contains_iff_mem] at g2
+        exact iv.noNotarNfSame e.own h g2 g1
+      · rw [c2 m2]; omega
+    · rw [c1 m1]; omega
+  · rw [iv.cSkip, iv.cSf]
+    have a1 : ∀ x ∈ st.skipVoters e.n, x = e.own := by
+      intro x hx
+      have := mem_range_filter hx
+      simp only [List.contains_iff_mem] at this
+      exact o3 x this
+    have a2 : ∀ x ∈ st.sfVoters e.n, x = e.own := by
+      intro x hx
+      have := mem_range_filter hx
+      simp only [List.contains_iff_mem] at this
+      exact o4 x this
+    obtain ⟨b1, c1⟩ := stakeOf_own e _ a1 (nd _)
+    obtain ⟨b2, c2⟩ := stakeOf_own e _ a2 (nd _)
+    by_cases m1 : e.own ∈ st.skipVoters e.n
+    · by_cases m2 : e.own ∈ st.sfVoters e.n
+      · exfalso
+        have g1 := mem_range_filter m1
+        have g2 := mem_range_filter m2
+        simp only [List.contains_iff_mem] at g1 g2
+        exact iv.noSkipSf e.own g1 g2
+      · rw [c2 m2]; omega
+    · rw [c1 m1]; omega
+  · rw [iv.cFin]
+    have a1 : ∀ x ∈ st.finVoters e.n, x = e.own := by
+      intro x hx
+      have := mem_range_filter hx
+      simp only [List.contains_iff_mem] at this
+      exact o5 x this
+    exact (stakeOf_own e _ a1 (nd _)).1
+
+/-- **own votes create no certificate** when the own stake is below the quorum threshold -/
+theorem newCerts_own_nil {e : Epoch} {st : SlotState} (i : RV e st) (v : Vote)
+    (hown : e.isQuorum (e.stake e.own) = false) : st.newCerts e v = [] := by
+  obtain ⟨c1, c2, c3⟩ := own_counters i
+  have q1 : ∀ h, e.isQuorum (lookupD st.sNf h + lookupD st.sNotar h) = false := fun h => (not_quorum_of_le hown (c1 h)).1
+  have q2 : ∀ h, e.isQuorum (lookupD st.sNotar h) = false ∧ e.isStrong (lookupD st.sNotar h) = false :=
+    fun h => not_quorum_of_le hown (by have := c1 h; omega)
+  have q3 := (not_quorum_of_le hown c2).1
+  have q4 := (not_quorum_of_le hown c3).1
+  unfold SlotState.newCerts
+  cases v.kind <;> dsimp only
+  · unfold notarCertsOn; rw [q1, (q2 _).1, (q2 _).2]; rfl
+  · unfold nfCertsOn; rw [q1]; rfl
+  · unfold skipCertsOn; rw [q3]; rfl
+  · unfold skipCertsOn; rw [q3]; rfl
+  · unfold finCertsOn; rw [q4]; rfl
+
+/-! ### the receiver's run -/
+
+structure RecvInv (e : Epoch) (p : Pool) : Prop where
+  ep : p.epoch = e
+  rv : AllSlots p (RV e)
+
+theorem RecvInv.init (e : Epoch) : RecvInv e { epoch := e } := ⟨rfl, fun st h => by simp at h⟩
+
+/-- a vote of the node itself at the receiver: stored (or refused), no certificate is created -/
+theorem recv_vote {e : Epoch} {p : Pool} (ri : RecvInv e p) (v : Vote) (hv : v.signer = e.own)
+    (hown : e.isQuorum (e.stake e.own) = false) :
+    RecvInv e (p.addVote v).1 ∧ certsOf (p.addVote v).2.2 = [] ∧ (p.addVote v).1.trk = p.trk ∧ Ext p (p.addVote v).1 := by
+  have h0 := slotState_spec p v.slot (RV e) ri.rv (RV.fresh e v.slot)
+  rcases addVote_shape p v with ⟨h1 | h1, h2⟩ | ⟨ha, h2, h3⟩
+  · rw [h1]; exact ⟨ri, h2, rfl, Ext.refl p⟩
+  · rw [h1]; exact ⟨⟨h0.2.2.2.1.trans ri.ep, h0.1⟩, h2, slotState_trk _ _, ext_slotState _ _⟩
+  · have hep : (p.slotState v.slot).1.epoch = e := h0.2.2.2.1.trans ri.ep
+    have hcs : addVoteCs p v = [] := by
+      unfold addVoteCs
+      rw [addVote_certs, hep]
+      exact newCerts_own_nil ⟨stored_InvV e _ v h0.2.1.1 ha, h0.2.1.2.stored v hv⟩ v hown
+    rw [hcs] at h2 h3
+    have hq : (p.addVote v).1 = addVoteQ p v := h2
+    rw [hq]
+    refine ⟨⟨?_, ?_⟩, h3, addVoteQ_trk p v, ext_addVoteQ p v⟩
+    · unfold addVoteQ
+      rw [(putSlot_spec _ _ (fun _ => True) (fun _ _ => trivial) trivial).2.1]; exact hep
+    · unfold addVoteQ
+      rw [hep]
+      exact (putSlot_spec _ _ (RV e) h0.1 (h0.2.1.vote v hv ha)).1
+
+theorem recv_cert {e : Epoch} {p : Pool} (ri : RecvInv e p) (c : Cert) : RecvInv e (p.addCert c).1 :=
+  ⟨(addCert_epoch p c).trans ri.ep,
+   allSlots_addCert (RV e) (RV.fresh e) (fun _ _ h i => i.of_coreEq h) p c ri.rv (fun st i _ => i.addCert c)⟩
+
+/-- the receiver is fed certificates of `certs` and votes of `votes` only -/
+def FedBy (certs : List Cert) (votes : List Vote) (rops : List PoolOp) : Prop :=
+  ∀ op ∈ rops, (∃ c ∈ certs, op = .cert c) ∨ (∃ v ∈ votes, op = .vote v)
+
+/-- **The receiver's log contains only delivered certificates** (own votes create none; no blocks). -/
+theorem recv_log (e : Epoch) (certs : List Cert) (votes : List Vote) (hv : ∀ v ∈ votes, v.signer = e.own)
+    (hown : e.isQuorum (e.stake e.own) = false) (rops : List PoolOp) (hf : FedBy certs votes rops)
+    (p : Pool) (ri : RecvInv e p) :
+    RecvInv e (poolRun p rops).1 ∧ ∀ x ∈ poolLog p rops, ∃ c ∈ certs, x = .cert c := by
+  induction rops generalizing p with
+  | nil => exact ⟨ri, fun x hx => by cases hx⟩
+  | cons op ops ih =>
+    have hf' : FedBy certs votes ops := fun o ho => hf o (List.mem_cons_of_mem _ ho)
+    simp only [poolRun, poolLog]
+    rcases hf op List.mem_cons_self with ⟨c, hc, rfl⟩ | ⟨v, hvm, rfl⟩
+    · have r1 := recv_cert ri c
+      obtain ⟨g1, g2⟩ := ih hf' (poolStep p (.cert c)).1 r1
+      refine ⟨g1, fun x hx => ?_⟩
+      rcases List.mem_append.mp hx with h | h
+      · have : x = .cert c := by
+          rcases addCert_shape p c with ⟨_, h2⟩ | ⟨_, _, h3⟩
+          · simp [stepItems, poolStep, h2] at h
+          · simpa [stepItems, poolStep, h3] using h
+        exact ⟨c, hc, this⟩
+      · exact g2 x h
+    · obtain ⟨r1, r2, _, _⟩ := recv_vote ri v (hv v hvm) hown
+      obtain ⟨g1, g2⟩ := ih hf' (poolStep p (.vote v)).1 r1
+      refine ⟨g1, fun x hx => ?_⟩
+      rcases List.mem_append.mp hx with h | h
+      · simp [stepItems, poolStep, r2] at h
+      · exact g2 x h
+
 end AgModel.Pool
